@@ -136,7 +136,7 @@ func main() {
 		_, _ = conf.Check(p.ImportPath, fset, files, info)
 		suffix := strings.TrimPrefix(p.ImportPath, mod+"/")
 		for i, af := range files {
-			if strings.HasSuffix(names[i], "zz_verif.go") {
+			if strings.Contains(filepath.Base(names[i]), "zz_verif") {
 				continue // harness code injected by the overlay
 			}
 			eds := rewrite(fset, af, info, srcs[names[i]], pointPkgs[suffix], stats)
